@@ -158,9 +158,17 @@ Definition tstep_verdict (c : tstep) : list nat :=
   (* guard conjuncts that are false *)
   ++ match plan with
      | Ok acts =>
-         map (fun k => 200 + k) (flat_map (action_guard_fail Q F) acts)
+         let fails := flat_map (action_guard_fail Q F) acts in
+         let go := g_order Q F acts new in
+         map (fun k => 200 + k) fails
          ++ tag (g_names Q (ts_names c) acts new) 209
          ++ tag (forallb (action_respell_free Q F) acts) 210
+         (* 211: the values the plan hands out, in emission order, are not the new list (g_order);
+            212: guard_plan (= forallb g_action acts && g_order acts new on this plan) is false although no
+                 conjunct is listed - the two ways of evaluating the guard disagree (a correspondence tag) *)
+         ++ tag go 211
+         ++ (if negb (forallb (g_action Q F) acts) && match fails with [] => true | _ => false end
+             then [212] else [])
      | Err _ => [299]
      end.
 
@@ -268,6 +276,59 @@ Record hdist := mkHD {
   hd_sigma : bool;
   hd_params : list (text * (Q * bool) * (nat * nat))      (* lower triangle: name, (init, fix), global (row, col) *)
 }.
+(* ---- the record plan of update_random_variable_records (ModelRv.v), one pstep per invocation ---- *)
+From PV Require Import C04.ModelRv.
+Record pstep := mkPS {
+  ps_in_old : list nat;            (* keys of the distributions python finds "in" old_random_variables *)
+  ps_old_names : list text;        (* parameter names of the old / new etas (or epsilons) *)
+  ps_new_names : list text;
+  ps_lens : list nat;              (* len(record) of the records of this type *)
+  ps_diff : list (nat * pdist);    (* the rvs_diff handed to the loop: 0 keep, 1 add, 2 remove *)
+  ps_raised : bool;                (* the invocation raised *)
+  ps_log : list paction            (* the calls the loop made, in order (PUpdate carries only the names) *)
+}.
+Definition op_of_nat (n : nat) : op := match n with 0 => Keep | 1 => Add | _ => Del end.
+Fixpoint nats_eqb (a b : list nat) : bool :=
+  match a, b with
+  | [], [] => true
+  | x :: a', y :: b' => Nat.eqb x y && nats_eqb a' b'
+  | _, _ => false
+  end.
+(* a planned action against an observed call *)
+Definition paction_matches (m o : paction) : bool :=
+  match m, o with
+  | PUpdate i d, PUpdate j e => Nat.eqb i j && texts_eqb (pd_pnames d) (pd_pnames e)
+  | PRemove i l, PRemove j k => Nat.eqb i j && nats_eqb l k
+  | PUpdateNew a, PUpdateNew b => texts_eqb a b
+  | PSingle d n, PSingle e k | PBlock d n, PBlock e k => pdist_eqb d e && Nat.eqb n k
+  | _, _ => false
+  end.
+Fixpoint plan_matches (exact : bool) (m o : list paction) : bool :=
+  match m, o with
+  | [], [] => true
+  | x :: m', y :: o' => paction_matches x y && plan_matches exact m' o'
+  | _ :: _, [] => negb exact          (* the observed loop stopped early: a callee raised *)
+  | [], _ :: _ => false
+  end.
+Definition pstep_verdict (p : pstep) : list nat :=
+  let d := map (fun x => (op_of_nat (fst x), snd x)) (ps_diff p) in
+  let kept := inter_texts (ps_old_names p) (ps_new_names p) in
+  (* 25: lcs.diff on the distributions, recomputed from what the script removes / keeps / adds *)
+  tag (let d' := diff pdist_eqb (olds d) (news d) in
+       Nat.eqb (length d) (length d')
+       && forallb (fun ab => op_eqb (fst (fst ab)) (fst (snd ab)) && pdist_eqb (snd (fst ab)) (snd (snd ab)))
+            (combine d d')) 25
+  (* 26: the plan of the loop against the calls the real loop made *)
+  ++ tag (match rv_loop (ps_in_old p) kept (ps_lens p) d (0, 0, [], [], 1) with
+          | Ok plan => plan_matches (negb (ps_raised p)) plan (ps_log p)
+          | Err _ => ps_raised p
+          end) 26.
+(* 251: some invocation is outside the guard of rv_plan_realises (a record with several diagonal items
+   is entered); class information only *)
+Definition pstep_aligned (p : pstep) : bool :=
+  g_aligned (ps_in_old p) (inter_texts (ps_old_names p) (ps_new_names p)) (ps_lens p)
+    (map (fun x => (op_of_nat (fst x), snd x)) (ps_diff p)) 0.
+
 Record hstep := mkHS {
   hs_before : list node;          (* the $OMEGA and $SIGMA record trees before the step *)
   hs_gone : list nat;             (* 0-based indices (etas first, then epsilons offset by 1000) of the random
@@ -275,7 +336,8 @@ Record hstep := mkHS {
   hs_nomega : nat;                (* how many of hs_before are $OMEGA records *)
   hs_status : nat;                (* 0 edited, 1 refused with ValueError, 2 crashed *)
   hs_mem : list hdist;            (* the in-memory model after the step: etas, then epsilons *)
-  hs_rr : option (rres (list hdist))     (* read_model_from_string(edited.code) *)
+  hs_rr : option (rres (list hdist));    (* read_model_from_string(edited.code) *)
+  hs_plans : list pstep                  (* every invocation of update_random_variable_records during the step *)
 }.
 
 Definition digits_nat (n : nat) : text := text_of_N (N.of_nat n).
@@ -370,6 +432,8 @@ Definition hstep_verdict (c : hstep) : list nat :=
                    ++ tag (forallb (fun ab => text_eqb (fst (fst (fst ab))) (fst (fst (snd ab)))) (combine pm pr)) 46)
       end
   end
+  ++ flat_map pstep_verdict (hs_plans c)
+  ++ (if forallb pstep_aligned (hs_plans c) then [] else [251])
   ++ (if existsb default_name_moved mem then [241] else [])
   ++ (if existsb partial_fix mem then [242] else [])
   ++ (if multi_item_touched omegas 0 0 (hs_gone c)
